@@ -14,6 +14,11 @@
 (* step is enabled.  Which of the blocked checks completes is the choice;  *)
 (* the verdicts are chosen by WPre as in Hier (all deterministic commands).*)
 (*                                                                         *)
+(* With MaxLate > 0 the harness can also HOLD the main loop after it has   *)
+(* received a success (a gate in the launcher) and let further checks      *)
+(* complete meanwhile: results computed against the superseded input that  *)
+(* are real, not abort results.                                            *)
+(*                                                                         *)
 (* `plan` records per sweep its pass, skip and input, and per completion   *)
 (* the task, its candidate, the verdict, whether the abort flag was set,   *)
 (* and the candidates that were in flight: the scheduler of the replay     *)
@@ -24,15 +29,22 @@
 (***************************************************************************)
 EXTENDS Hier
 
-VARIABLE plan
-svars == <<vars, plan>>
+CONSTANT MaxLate    \* late completions per busy period of the main loop
+
+VARIABLES plan,
+          slow,     \* the main loop is busy: a success waits in `results`
+          nlate     \* completions since it became busy
+svars == <<vars, plan, slow, nlate>>
 
 (* the lowest idle worker takes the next task (workers are symmetric) *)
 TakeLowest(w) ==
   /\ Take(w)
   /\ \A u \in Workers : u < w => wk[u].st # "idle"
 
-Internal == \/ Produce \/ MainRecv \/ SweepEnd
+(* steps that happen by themselves; the main loop consumes a result at     *)
+(* once unless it is busy                                                  *)
+Internal == \/ Produce \/ SweepEnd
+            \/ (~slow /\ MainRecv)
             \/ \E w \in Workers : TakeLowest(w) \/ WPre(w)
 
 InFlight == { w \in Workers : wk[w].st = "post" }
@@ -41,22 +53,41 @@ SSweepStart ==
   /\ SweepStart
   /\ plan' = Append(plan, [k |-> "sweep", pass |-> passid, skip |-> skip,
                            base |-> base])
+  /\ UNCHANGED <<slow, nlate>>
 
 DecisionPoint == ~ENABLED Internal /\ ~ENABLED SweepStart
 
+(* A completion.  If it is a success that the main loop would act on, the  *)
+(* harness may hold the main loop (`slow`): up to MaxLate further checks   *)
+(* then complete with the abort flag still clear - real results of the     *)
+(* superseded input, which the main loop must discard once it has acted on *)
+(* the first (the second WPost before MainRecv of Hier.tla).               *)
 Complete(w) ==
   /\ DecisionPoint
+  /\ slow => nlate < MaxLate
   /\ WPost(w)
-  /\ plan' = Append(plan,
-        [k |-> "done", seq |-> wk[w].task.seq, node |-> wk[w].task.node,
-         cand |-> wk[w].task.cand, v |-> wk[w].v, ab |-> abort,
-         inflight |-> [u \in InFlight |-> wk[u].task.cand]])
+  /\ \E s \in (IF ~slow /\ wk[w].v /\ ~abort /\ MaxLate > 0
+               THEN BOOLEAN ELSE {slow}) :
+       /\ slow' = s
+       /\ plan' = Append(plan,
+             [k |-> "done", seq |-> wk[w].task.seq, node |-> wk[w].task.node,
+              cand |-> wk[w].task.cand, v |-> wk[w].v, ab |-> abort,
+              late |-> slow, holds |-> (s /\ ~slow),
+              inflight |-> [u \in InFlight |-> wk[u].task.cand]])
+  /\ nlate' = IF slow THEN nlate + 1 ELSE 0
+
+(* the harness lets the main loop go on *)
+Wake ==
+  /\ DecisionPoint /\ slow
+  /\ slow' = FALSE
+  /\ UNCHANGED <<vars, plan, nlate>>
 
 SNext == \/ SSweepStart
-         \/ (Internal /\ UNCHANGED plan)
+         \/ (Internal /\ UNCHANGED <<plan, slow, nlate>>)
          \/ \E w \in Workers : Complete(w)
+         \/ Wake
 
-SInit == Init /\ plan = <<>>
+SInit == Init /\ plan = <<>> /\ slow = FALSE /\ nlate = 0
 SSpec == SInit /\ [][SNext]_svars /\ WF_svars(SNext)
 
 (* SSpec refines Hier!Spec step by step *)
